@@ -9,6 +9,7 @@ import (
 	"os"
 	"os/exec"
 	"path/filepath"
+	"sort"
 	"strings"
 	"syscall"
 	"testing"
@@ -43,6 +44,32 @@ type c15Case struct {
 
 var c15Defects = []string{"missing-file", "empty-file", "yaml-syntax", "wrong-type", "unknown-syscall", "unknown-syscall-conditional", "unknown-action",
 	"unknown-default-action", "unknown-operation", "no-seccomp-key", "empty-syscalls", "argument-index-6", "oversize-program", "unprivileged-without-nnp", "binary-garbage", "entry-without-arguments", "entry-with-empty-arguments"}
+
+// c15UnknownName: a name that is not a syscall of x86_64 - half of the time one that exists nowhere, otherwise a real
+// syscall name of another architecture (socketcall, mmap2, waitpid, stat64 ...), which is just as unknown here.
+func c15UnknownName(pos int) string {
+	if pos%2 == 0 {
+		return []string{"no_such_syscall", "getppidd", "sys_read", "READ"}[(pos/2)%4]
+	}
+	var foreign []string
+	info := spec.ArchInfo("x86_64")
+	for _, a := range []string{"i386", "arm", "aarch64"} {
+		for _, n := range oracle.Names(a) {
+			if _, ok := info.SyscallNames[n]; ok {
+				continue
+			}
+			if _, ok := oracle.Table("x86_64")[n]; ok {
+				continue
+			}
+			foreign = append(foreign, n)
+		}
+	}
+	if len(foreign) == 0 {
+		return "no_such_syscall"
+	}
+	sort.Strings(foreign)
+	return foreign[(pos/2)%len(foreign)]
+}
 
 func drawC15(t *rapid.T) c15Case {
 	c := c15Case{Spelling: rapid.Uint64().Draw(t, "spelling"), NNP: true}
@@ -110,7 +137,7 @@ func c15PolicyText(c *c15Case) (text string, writeFile bool) {
 		if len(g.Names) > 0 {
 			at = (c.Pos / 7) % (len(g.Names) + 1)
 		}
-		g.Names = append(g.Names[:at:at], append([]string{"no_such_syscall"}, g.Names[at:]...)...)
+		g.Names = append(g.Names[:at:at], append([]string{c15UnknownName(c.Pos)}, g.Names[at:]...)...)
 	case "unknown-syscall-conditional":
 		ensureCond()
 		copyGroups()
@@ -121,7 +148,7 @@ func c15PolicyText(c *c15Case) (text string, writeFile bool) {
 			}
 		}
 		k := idx[c.Pos%len(idx)]
-		p.Groups[k[0]].Conds[k[1]].Name = "getppidd"
+		p.Groups[k[0]].Conds[k[1]].Name = []string{"getppidd", c15UnknownName(c.Pos | 1)}[(c.Pos/3)%2]
 	case "argument-index-6":
 		ensureCond()
 		copyGroups()
